@@ -25,7 +25,7 @@ RULE = ('each case = one endpoint, s driven to open / half-closed(local) / half-
         'racing frames delivered and judged; distinct = hash of the schedule')
 MINIMA = {'racing_frames_judged': 30000, 'racing_data_bytes_over_64k_cases': 100, 'racing_header_blocks': 3000,
           'later_messages_header_checked': 3000, 'refused_push_cases': 300, 'after_cleanup_cases': 800, 'pad_flood_cases': 100,
-          'local_stream_limit_saturated_cases': 500, 'newer_bystander_stream_cases': 500, 'racing_informational_blocks': 200}
+          'local_stream_limit_saturated_cases': 500, 'newer_bystander_stream_cases': 500, 'cases_with_small_closed_stream_memory': 250, 'racing_informational_blocks': 200}
 
 
 def n_cases(tier):
@@ -37,6 +37,15 @@ def run_case(idx, rng, tier, rep):
     # E's own MAX_CONCURRENT_STREAMS: a client that allows no pushed streams, a server with a small limit that is then saturated
     mcs = rng.choice([None, None, 0, 1] if e_client else [None, None, 1, 2, 3])
     h = scen.Hostile(e_client, keep_log=True, e_settings=None if mcs is None else {wire.S_MAX_CONCURRENT_STREAMS: mcs})
+    small_memory = False
+    if rng.random() < 0.3:
+        # a small closed-stream memory (H2Connection.MAX_CLOSED_STREAMS is the documented knob; here the limit of the instance's
+        # own table is lowered): what is remembered about the reset stream and about refused promises must survive as long as
+        # they are among the newest entries
+        cs = getattr(h.c, '_closed_streams', None)
+        if hasattr(cs, '_size_limit') and e_client and mcs is None:
+            cs._size_limit = 64
+            small_memory = True
     saturated = [False]
     t = h.t
     enc = hpack.Encoder()          # the peer's real, indexing encoder
@@ -75,6 +84,17 @@ def run_case(idx, rng, tier, rep):
                 return None
         return res
 
+    def prefill():
+        # fill the small memory with old closed streams before the stream under test exists: from then on every new entry pushes
+        # out the oldest one, and the reset stream and the refused promises stay among the newest
+        for _ in range(70):
+            o, r0 = h.e_request(end_stream=True)
+            if not r0.ok or deliver(wire.build_headers(o, pblock(RESP), end_stream=True), ('prefill', o), racing=False) is None:
+                return False
+        h.cleanup()
+        rep.count('cases_with_small_closed_stream_memory')
+        return True
+
     def fresh_fields(n=2):
         out = []
         for _ in range(n):
@@ -83,6 +103,8 @@ def run_case(idx, rng, tier, rep):
         return out
 
     # ---- bring s into its state
+    if small_memory and not prefill():
+        return
     state = rng.choice(['open', 'open_resp', 'hc_local', 'hc_remote', 'reserved'] if e_client else ['open', 'open_resp', 'hc_local', 'hc_remote'])
     introduced = []
     if e_client:
@@ -147,7 +169,7 @@ def run_case(idx, rng, tier, rep):
     cleaned = rng.random() < 0.45
     if cleaned:
         rep.count('after_cleanup_cases')
-        for _ in range(rng.choice([1, 1, 3, 20, 200])):
+        for _ in range(rng.choice([1, 1, 3] if small_memory else [1, 1, 3, 20, 200])):
             if e_client:
                 o, r0 = h.e_request(end_stream=True)
                 if not r0.ok:
